@@ -4,8 +4,8 @@ Driver entry for property C16: one request payload in, one canonical response li
   h atoms=<Z:charge:spin:cc:hint,…> bonds=<a1-a2:btype:forder,…|-> sel=<*|i,j,…|->
       (cc = 1 for AtomType.CoordinationCenter, hint `-` = none; sel `*` = the default atom list)
       → n=<atoms after> k=<hydrogens per old atom> new=<centre-newatom,…|-> hints=<hint per old atom after>
-  g z=<Z of the centre> k=<number of hydrogens> a=<x,y,z> w=<x,y,z|-> hs=<x,y,z;…>      (exact rationals p/q)
-      → d=<0|1 per hydrogen: |dist² − L²·const| ≤ 2·10⁻⁵·L²> away=<0|1 per hydrogen | -> ang=<0|1|->
+  g z=<Z of the centre> k=<number of hydrogens> a=<x,y,z> w=<x,y,z|-> [nrm=<x,y,z|->] hs=<x,y,z;…>   (exact rationals p/q)
+      → d=<0|1 per hydrogen: |dist² − L²·const| ≤ 2·10⁻⁵·L²> away=<0|1 per hydrogen | -> ang=<0|1|-> par=<0|1 per hydrogen: (h − a) ∥ nrm | ->
         with L = radius(Z) + radius(H) and the exact constants of `Molli.Props.C16`
 -/
 import Molli.Util.Basic
@@ -77,7 +77,10 @@ def absR (q : Rat) : Rat := if q < 0 then -q else q
 
 def b01 (b : Bool) : String := if b then "1" else "0"
 
-def runG (z k : Nat) (a : V3 Rat) (w : Option (V3 Rat)) (hs : List (V3 Rat)) : String :=
+def crossR (a b : V3 Rat) : V3 Rat :=
+  ⟨a.y * b.z - a.z * b.y, a.z * b.x - a.x * b.z, a.x * b.y - a.y * b.x⟩
+
+def runG (z k : Nat) (a : V3 Rat) (w : Option (V3 Rat)) (nrm : Option (V3 Rat)) (hs : List (V3 Rat)) : String :=
   let L := tables.radius z + tables.radius tables.hydrogen
   let tol := (2 / 100000 : Rat) * (L * L)
   let consts : List Rat :=
@@ -93,8 +96,13 @@ def runG (z k : Nat) (a : V3 Rat) (w : Option (V3 Rat)) (hs : List (V3 Rat)) : S
   let ang := match k, hs with
     | 2, [h1, h2] => b01 (decide (absR ((h1.sub a).dot (h2.sub a) - L * L * (tables.c2 * tables.c2 - tables.s2 * tables.s2)) ≤ tol))
     | _, _ => "-"
+  -- the hydrogen lies on the line through the centre along `nrm` (sin² of the angle ≤ 10⁻⁸)
+  let par := match nrm with
+    | some n => "".intercalate (hs.map (fun (h : V3 Rat) =>
+        b01 (decide ((crossR (h.sub a) n).norm2 ≤ (1 / 100000000 : Rat) * ((h.sub a).norm2 * n.norm2)))))
+    | none => "-"
   if hs.length != (if k ≤ 4 then k else 4) then "err:count" else
-  s!"d={"".intercalate (ds.map b01)} away={aw} ang={ang}"
+  s!"d={"".intercalate (ds.map b01)} away={aw} ang={ang} par={par}"
 
 def handle (payload : String) : String :=
   let ws := words payload
@@ -117,10 +125,9 @@ def handle (payload : String) : String :=
     | some z, some k, some a, some w, some hs =>
       match ((if hs == "-" then [] else hs.splitOn ";").map parseV3?).mapM id with
       | some hl =>
-        if w == "-" then runG z k a none hl
-        else match parseV3? w with
-          | some wv => runG z k a (some wv) hl
-          | none => "err:parse"
+        let wv := if w == "-" then none else parseV3? w
+        let nv := (kv rest "nrm").bind (fun s => if s == "-" then none else parseV3? s)
+        if w != "-" && wv.isNone then "err:parse" else runG z k a wv nv hl
       | none => "err:parse"
     | _, _, _, _, _ => "err:parse"
   | _ => "err:unknown-op"
